@@ -212,14 +212,14 @@ impl EventSource for Park {
             .map(|dur| get_scheduler().add_timer(dur, self.wait_co.clone()));
         self.set_timeout_handle(timeout_handle);
         #[cfg(may_verif)]
-        crate::verif::label("park.subscribe.timer_armed", 0);
+        crate::verif::label("park.subscribe.timer_armed", Arc::as_ptr(&self.wait_co) as usize);
 
         let _g = self.delay_drop();
 
         // register the coroutine
         self.wait_co.store(co);
         #[cfg(may_verif)]
-        crate::verif::label("park.subscribe.stored", 0);
+        crate::verif::label("park.subscribe.stored", Arc::as_ptr(&self.wait_co) as usize);
 
         // re-check the state, only clear once after resume
         if self.state.load(Ordering::Acquire) {
